@@ -14,6 +14,7 @@ BW = g.FAMILIES["move_bw"] + ["max_bw", "min_bw", "add_bw", "sub_bw", "mul_bw", 
 
 def run(ctx):
     ctx.level = "proof"
+    tc.optional_part(ctx, "bwtables", "prepare")      # regenerate the BACKWARD tables before the theorems are recompiled
     res = ctx.prove()
     n = 5000 if ctx.quick() else 60000
     tc.run_stream(ctx, "tensor-bw-naive", BW, n, backend="naive", exhaustive_ops=("max_bw", "flip_bw"))
